@@ -171,14 +171,28 @@ def run_config(c, cfg):
         if bad and 'fixed_point' in tags:
             c.violation(pre + 'fixed-point', bad, case(rows=rows))
         if 'time' in tags:
-            # the same model on a grid that starts later (the first time point is where the initial condition applies)
-            t2 = [0.5 + t_ for t_ in times]
-            res2 = py_simulate_model(np.array(t2), Model=to_model(sp), stochastic=False, return_dataframe=False)
-            rows2 = [[float(r[order.index(s)]) for s in sp['species']] for r in res2.py_get_result()]
-            c.count('evaluations'); c.count('traces'); c.count('transitions', len(rows2))
-            bad = fixed_point_violation(sp, rows2, t2)
+            # the same model on a grid that starts later (the first time point is where the initial condition applies), and on grids
+            # given in other representations: a strided view, an integer array
+            fine = np.linspace(0.0, 2.0, 17)
+            variants = [('offset-grid', np.array([0.5 + t_ for t_ in times])), ('strided-grid', fine[::4]), ('integer-grid', np.arange(0, 5))]
+            for vname, tv in variants:
+                res2 = py_simulate_model(tv, Model=to_model(sp), stochastic=False, return_dataframe=False)
+                rows2 = [[float(r[order.index(s)]) for s in sp['species']] for r in res2.py_get_result()]
+                c.count('evaluations'); c.count('traces'); c.count('transitions', len(rows2))
+                bad = fixed_point_violation(sp, rows2, [float(t_) for t_ in tv])
+                if bad:
+                    c.violation(pre + 'fixed-point-' + vname, bad, case(rows=rows2, extra=dict(times=[float(t_) for t_ in tv])))
+        if 'fixed_point' in tags and sp.get('params'):
+            # a second, independent model of the same definition with its parameters declared in the reverse order
+            sp_r = dict(sp, params=dict(reversed(list(sp['params'].items()))))
+            m_r = to_model(sp_r)
+            res3 = py_simulate_model(np.array(times), Model=m_r, stochastic=False, return_dataframe=False)
+            o_r = m_r.get_species_list()
+            rows3 = [[float(r[o_r.index(s)]) for s in sp['species']] for r in res3.py_get_result()]
+            c.count('evaluations'); c.count('traces'); c.count('transitions', len(rows3))
+            bad = fixed_point_violation(sp, rows3, times)
             if bad:
-                c.violation(pre + 'fixed-point-offset-grid', bad, case(rows=rows2, extra=dict(times=t2)))
+                c.violation(pre + 'fixed-point-parameters-declared-in-reverse', bad, case(rows=rows3))
         c.nontrivial((name, mode, grid))
         return
     if mode == 'lineage':
